@@ -11,7 +11,9 @@
 EXTENDS Naturals, Sequences, FiniteSets, TLC
 
 ConstKinds == {"const", "global_get", "ref_func", "gc_const", "ext_const", "nonconst", "noend"}
-NameAt     == {"first", "before_code", "last"}
+\* where the name section sits: "front" = before every other section (the import count is not known yet),
+\* "first" = after the imports, "before_code", "last"
+NameAt     == {"front", "first", "before_code", "last"}
 
 PartVariants ==
        {[p |-> "version", v |-> v] : v \in {"component", "bogus"}}
